@@ -25,8 +25,9 @@ Counter p_optbool("probe.optional_of_bool_copied");
 Counter p_fault_make("probe.fault_inside_make_quaint");
 Counter p_fault_vec("probe.fault_inside_vector_growth");
 Counter p_fault_opt("probe.fault_inside_optional_copy");
-Counter p_types[5] = { Counter("payload.Small.created"), Counter("payload.Heapy.created"),
-                       Counter("payload.Large.created"), Counter("payload.Multi.created"), Counter("payload.SelfClearing.created") };
+Counter p_types[6] = { Counter("payload.Small.created"), Counter("payload.Heapy.created"),
+                       Counter("payload.Large.created"), Counter("payload.Multi.created"), Counter("payload.SelfClearing.created"),
+                       Counter("payload.Pooled.created") };
 Counter p_reenter("probe.reset_reentered_from_payload_destructor");
 
 constexpr uint32_t ALIVE = 0xA11CE5ED, DEAD = 0xDEADDEAD;
@@ -199,6 +200,35 @@ struct SelfClearing
     }
 };
 
+// A trivially destructible payload whose storage comes from, and has to go back to, the class's own
+// allocation functions (a pooled or instance-counting type): "destroyed by the type it was created
+// with" here means released through Pooled::operator delete, which is where its death is recorded.
+struct Pooled
+{
+    Head h;
+    explicit Pooled(int v)
+    {
+        throw_site();
+        born(&h, this, 6, v);
+    }
+    static void* operator new(std::size_t n)
+    {
+        return ::operator new(n);
+    }
+    static void operator delete(void* p)
+    {
+        bool known;
+        {
+            NoFault nf;
+            known = g_reg.live.count(p) != 0;
+        }
+        if (known) // (not known: clean-up after the constructor threw)
+            died(static_cast<Head*>(p), p, 6);
+        ::operator delete(p);
+    }
+};
+static_assert(std::is_trivially_destructible<Pooled>::value, "Pooled must stay trivially destructible");
+
 // payload of the optionals: copyable, instance-counted
 struct OptVal
 {
@@ -297,8 +327,10 @@ constexpr int NSLOT = 4, NOPT = 4;
 
 quaint_ptr make_typed(int type, int val)
 {
-    switch (type % 5)
+    switch (type % 6)
     {
+    case 5:
+        return nitro::lang::make_quaint<Pooled>(val);
     case 4:
         return nitro::lang::make_quaint<SelfClearing>(val);
     case 3:
@@ -508,7 +540,7 @@ struct Exec
         {
         case K_MAKE:
         {
-            int type = static_cast<int>(op.a[1] % 5), val = static_cast<int>(op.a[2] % 100);
+            int type = static_cast<int>(op.a[1] % 6), val = static_cast<int>(op.a[2] % 100);
             if (!slot[si])
             {
                 NoFault nf;
@@ -654,7 +686,7 @@ struct Exec
         }
         case K_VEC_EMPLACE:
         {
-            int type = static_cast<int>(op.a[0] % 5), val = static_cast<int>(op.a[1] % 100);
+            int type = static_cast<int>(op.a[0] % 6), val = static_cast<int>(op.a[1] % 100);
             if (!vec)
             {
                 NoFault nf;
@@ -1081,7 +1113,7 @@ public:
     }
     std::vector<std::string> stub_components() const override
     {
-        return { "payload types Small/Heapy/Large/Multi/SelfClearing/OptVal (instance-counting, creation-type tagged, constructors can throw; SelfClearing resets its owner from its destructor)",
+        return { "payload types Small/Heapy/Large/Multi/SelfClearing/Pooled/OptVal (instance-counting, creation-type tagged, constructors can throw; SelfClearing resets its owner from its destructor)",
                  "global operator new (k-th allocation in an operation fails)" };
     }
     Plan generate(Rng& rng, const Config&, int) override
